@@ -435,6 +435,113 @@ func methodsOf(pkg *packages.Package, typ string) map[string]*ast.FuncDecl {
 	return out
 }
 
+// semantic token bag of the code that implements a type: methods of the type plus the unexported package-level
+// helpers they call. Local names, receiver kinds, statement order, closures vs. named helpers, clause order and
+// comments do not show; operators, constants (by value), external callees, field names, conversions and builtins do.
+func typeBag(pkg *packages.Package, typ string) map[string]int {
+	bag := map[string]int{}
+	info := pkg.TypesInfo
+	decls := map[types.Object]*ast.FuncDecl{}
+	for _, f := range pkg.Syntax {
+		for _, d := range f.Decls {
+			if fd, ok := d.(*ast.FuncDecl); ok && fd.Body != nil {
+				decls[info.Defs[fd.Name]] = fd
+			}
+		}
+	}
+	done := map[*ast.FuncDecl]bool{}
+	var visit func(fd *ast.FuncDecl)
+	visit = func(fd *ast.FuncDecl) {
+		if done[fd] {
+			return
+		}
+		done[fd] = true
+		ast.Inspect(fd.Body, func(n ast.Node) bool {
+			switch x := n.(type) {
+			case *ast.FuncType:
+				return false // signatures of closures are not behaviour
+			case *ast.DeclStmt:
+				if gd, ok := x.Decl.(*ast.GenDecl); ok && gd.Tok == token.CONST {
+					return false // local constants are used by value
+				}
+			}
+			if e, ok := n.(ast.Expr); ok {
+				if tv, ok := info.Types[e]; ok && tv.Value != nil {
+					bag["const:"+tv.Value.ExactString()]++
+					return false
+				}
+				if tv, ok := info.Types[e]; ok && tv.IsType() {
+					bag["type:"+types.TypeString(tv.Type, func(p *types.Package) string {
+						if p == pkg.Types {
+							return ""
+						}
+						return p.Path()
+					})]++
+					return false
+				}
+			}
+			switch x := n.(type) {
+			case *ast.BinaryExpr:
+				op := x.Op.String()
+				switch op { // a > b is b < a
+				case ">":
+					op = "<"
+				case ">=":
+					op = "<="
+				}
+				bag["op:"+op]++
+			case *ast.UnaryExpr:
+				bag["un:"+x.Op.String()]++
+			case *ast.AssignStmt:
+				if x.Tok != token.ASSIGN && x.Tok != token.DEFINE {
+					bag["asg:"+x.Tok.String()]++
+				}
+			case *ast.IncDecStmt:
+				bag["incdec:"+x.Tok.String()]++
+			case *ast.IndexExpr:
+				bag["index"]++
+			case *ast.SliceExpr:
+				bag["slice"]++
+			case *ast.StarExpr:
+				bag["deref"]++
+			case *ast.GoStmt:
+				bag["go"]++
+			case *ast.DeferStmt:
+				bag["defer"]++
+			case *ast.Ident:
+				o := info.Uses[x]
+				switch o := o.(type) {
+				case *types.Var:
+					if o.IsField() {
+						bag["field:"+o.Name()]++
+					}
+				case *types.Builtin:
+					bag["builtin:"+o.Name()]++
+				case *types.Func:
+					if o.Pkg() != nil && o.Pkg() != pkg.Types {
+						bag["call:"+o.Pkg().Path()+"."+o.Name()]++
+					} else if fd := decls[o]; fd != nil && !o.Exported() {
+						// same-package unexported helper or sibling method: part of the implementation
+						sig := o.Type().(*types.Signature)
+						if sig.Recv() == nil || strings.HasSuffix(typeName(sig.Recv().Type()), "."+typ) {
+							visit(fd)
+						} else {
+							bag["call:"+o.Name()]++
+						}
+					} else {
+						bag["call:"+o.Name()]++
+					}
+				}
+			}
+			return true
+		})
+	}
+	for _, fd := range methodsOf(pkg, typ) {
+		visit(fd)
+	}
+	return bag
+}
+
 func c16Sibling(c *Ctx) {
 	p2, p4 := c.P.Pkg("rhp/v2"), c.P.Pkg("rhp/v4")
 	if p2 == nil || p4 == nil {
@@ -463,27 +570,27 @@ func c16Sibling(c *Ctx) {
 		}
 	}
 	c.Check(same, "sibling", typ+":fields", c.P.Pos(t4.Pos()), ifElse(same, "identical field list in rhp/v2 and rhp/v4", "the rhp/v4 copy of sectorAccumulator has different fields from the rhp/v2 one"))
-	m2, m4 := methodsOf(p2, typ), methodsOf(p4, typ)
-	var names []string
-	for n := range m2 {
-		names = append(names, n)
+	b2, b4 := typeBag(p2, typ), typeBag(p4, typ)
+	var diffs []string
+	keys := map[string]bool{}
+	for k := range b2 {
+		keys[k] = true
 	}
-	for n := range m4 {
-		if m2[n] == nil {
-			names = append(names, n)
+	for k := range b4 {
+		keys[k] = true
+	}
+	for _, k := range sortedKeys(keys) {
+		if b2[k] != b4[k] {
+			diffs = append(diffs, fmt.Sprintf("%s ×%d in rhp/v2, ×%d in rhp/v4", k, b2[k], b4[k]))
 		}
 	}
-	sort.Strings(names)
-	for _, n := range names {
-		a, b := m2[n], m4[n]
-		if a == nil || b == nil {
-			c.Info("sibling", typ+"."+n, "", "method exists in only one copy")
-			continue
-		}
-		ca, cb := canonOf(p2, a.Body), canonOf(p4, b.Body)
-		c.Check(ca == cb, "sibling", typ+"."+n, c.P.Pos(b.Pos()), ifElse(ca == cb, "rhp/v4 body agrees with rhp/v2", "the two copies of sectorAccumulator."+n+" differ, so v4 roots computed through the local copy can differ from rhp/v2 roots: "+firstTokDiff(ca, cb)))
+	n := 0
+	for _, v := range b4 {
+		n += v
 	}
-	c.Min("sibling", 5)
+	c.Check(len(diffs) == 0, "sibling", typ+":implementation", c.P.Pos(t4.Pos()), ifElse(len(diffs) == 0, fmt.Sprintf("the two implementations use the same operators, constants, fields, conversions and external calls (%d semantic tokens each)", n), "the two copies of sectorAccumulator differ, so v4 roots computed through the local copy can differ from rhp/v2 roots: "+strings.Join(diffs, "; ")))
+	c.Check(len(methodsOf(p2, typ)) >= 4 && len(methodsOf(p4, typ)) >= 1, "sibling", typ+":inventory", "", fmt.Sprintf("%d methods in rhp/v2, %d in rhp/v4", len(methodsOf(p2, typ)), len(methodsOf(p4, typ))))
+	c.Min("sibling", 3)
 }
 
 func sigString(f *types.Func) string {
